@@ -11621,6 +11621,11 @@ tsk_table_collection_read_format_data(tsk_table_collection_t *self, kastore_t *s
         ret = tsk_trace_error(TSK_ERR_FILE_FORMAT);
         goto out;
     }
+    /* The UUID is kept as a C string, so an embedded NUL would shorten it */
+    if (memchr(uuid, 0, TSK_UUID_SIZE) != NULL) {
+        ret = tsk_trace_error(TSK_ERR_FILE_FORMAT);
+        goto out;
+    }
     ret = tsk_table_collection_set_file_uuid(self, (const char *) uuid);
     if (ret != 0) {
         goto out;
